@@ -51,8 +51,8 @@ ASSUMPTIONS = [
     "all store instances are opened on the same directory string; the application does not edit `source` or `id` of stored objects",
 ]
 
-IDS = ["a", "b", "dir/../x", "ü/€\\𝒳 ?#%", "https://example.org/sm/1?x=1#frag"]
-MORE_IDS = ["/", "..", "a/", ".json", "A", "‮abc", "x" * 300, "json", "nosj."]
+IDS = ["a", "A", "b", "dir/../x", "ü/€\\𝒳 ?#%", "https://example.org/sm/1?x=1#frag"]
+MORE_IDS = ["/", "..", "a/", ".json", "a ", "‮abc", "x" * 300, "json", "nosj."]
 
 
 # ------------------------------------------------------------------------------------------------ implementation side
@@ -282,7 +282,7 @@ def nontrivial(ops: List[List[Any]]) -> bool:
 
 def correspond_seq(ctx: C.Ctx, cov: C.Coverage, lines, impl_out, index, cases):
     rng = ctx.rng
-    n_hist = ctx.budget(200, 6000)
+    n_hist = ctx.budget(200, 1200)
     for hi in range(n_hist):
         ninst = rng.choice([1, 2, 2, 2, 3])
         ids = rng.sample(IDS, rng.choice([1, 2, 3])) if rng.random() < 0.8 else rng.sample(IDS + MORE_IDS, 3)
@@ -565,15 +565,29 @@ def conc_impl_out(cfg, r):
     return [tr, r["res"][0], r["res"][1], r["cache"], r["fresh0"], r["boundX"][0], r["boundX"][1], r["done"]]
 
 
+def conc_plan(tier: str, rng: random.Random, oracle_side: bool) -> List[Tuple[Dict[str, Any], List[List[int]]]]:
+    """Which schedules are run for which start configuration.
+    central = both calls retrieve a stored identifier: EVERY interleaving (quick 2 x 6 steps when nothing is cached, thorough
+    2 x 7 steps for all five cache states); the other configurations: every interleaving of 2 x 6 steps (thorough, the quick
+    selection) or a seeded sample."""
+    s6, s7 = interleavings(6, 6), interleavings(7, 7)
+    plan = []
+    quick_sel = conc_configs("quick")
+    for cfg in conc_configs(tier):
+        central = cfg["file"] and cfg["p0"] == "get" and cfg["p1"] == "get"
+        if tier == "quick":
+            use = s6 if (central and not cfg["cache"]) else rng.sample(s6, 60 if oracle_side else 150)
+        elif oracle_side:
+            use = s6 if central else rng.sample(s6, 100)
+        else:
+            use = s7 if central else (s6 if cfg in quick_sel else rng.sample(s7, 200))
+        plan.append((cfg, use))
+    return plan
+
+
 def correspond_conc(ctx: C.Ctx, cov: C.Coverage, lines, impl_out, index, cases):
-    n = 6 if ctx.tier == "quick" else 7
-    scheds = interleavings(n, n)
-    if ctx.tier == "quick":
-        # every interleaving of 2 x 6 steps for the central configuration, a seeded sample for the others
-        pass
-    for cfg in conc_configs(ctx.tier):
-        central = cfg["file"] and cfg["p0"] == "get" and cfg["p1"] == "get" and not cfg["cache"]
-        use = scheds if (central or ctx.tier == "thorough") else ctx.rng.sample(scheds, 150)
+    plan = conc_plan(ctx.tier, ctx.rng, False)
+    for cfg, use in plan:
         for s in use:
             r = run_schedule(cfg, s)
             lines.append(conc_line(cfg, s))
@@ -586,8 +600,9 @@ def correspond_conc(ctx: C.Ctx, cov: C.Coverage, lines, impl_out, index, cases):
             tr = r["trace"]
             if any(a == b == "acq" for a, b, *_ in tr) or any(h is not None and (a == "acq" or b == "acq") for a, b, h, *_ in tr):
                 cov.nontrivial.add(C.sha([cfg, s]))
-    cov.extra["schedules_per_configuration"] = len(scheds)
-    cov.extra["thread_configurations"] = len(conc_configs(ctx.tier))
+    cov.extra["schedules_run"] = sum(len(u) for _, u in plan)
+    cov.extra["thread_configurations"] = len(plan)
+    cov.extra["exhaustive_interleavings"] = {"2x6 steps": len(interleavings(6, 6)), "2x7 steps": len(interleavings(7, 7))}
 
 
 def correspond(ctx: C.Ctx, cov: C.Coverage) -> List[C.Disagreement]:
@@ -820,7 +835,7 @@ def _oracle_histories(ctx: C.Ctx) -> List[List[List[Any]]]:
     was = gc.isenabled()
     gc.disable()
     try:
-        for _ in range(ctx.budget(150, 4000)):
+        for _ in range(ctx.budget(150, 800)):
             w = World()
             try:
                 ninst = rng.choice([1, 2, 2, 3])
@@ -852,18 +867,14 @@ def oracle(ctx: C.Ctx, cov: C.Coverage) -> List[C.Failing]:
             small = C.ddmin(f.case["ops"], lambda ops: (lambda g: g is not None and g.sig == sig)(check_sequence(ops)), max_tests=120)
             g = check_sequence(small)
             out.append(g if g is not None and g.sig == sig else f)
-    n = 6 if ctx.tier == "quick" else 7
-    scheds = interleavings(n, n)
     rng = random.Random(f"C14-oracle-conc:{ctx.seed}")
-    for cfg in conc_configs(ctx.tier):
-        central = cfg["file"] and cfg["p0"] == "get" and cfg["p1"] == "get"
-        use = scheds if central and (ctx.tier == "thorough" or not cfg["cache"]) else rng.sample(scheds, 60 if ctx.tier == "quick" else 400)
+    for cfg, use in conc_plan(ctx.tier, rng, True):
         for s in use:
             f = check_schedule(cfg, s)
             if f and f.sig not in sigs:
                 sigs.add(f.sig)
                 out.append(f)
-    cov.extra["oracle_histories"] = ctx.budget(150, 4000) + 4
+    cov.extra["oracle_histories"] = ctx.budget(150, 800) + 4
     return out
 
 
